@@ -30,7 +30,56 @@ RULE = ("scenario = initial repository (<= 10 objects: loose set, <= 3 packs) + 
 LEVEL_NOTE = ("partial: the publication protocol is proved for all interleavings of the model; data-race freedom and descriptor-pressure "
               "behaviour are exercised (stress + race detector), not proved")
 
-NOBJ = 10
+NOBJ = 24
+BUCKETS = [0x3a, 0x3b, 0x7c, 0xe1]
+
+
+def _universe():
+    """the 24 blob ids of harness/cmd/c23 (same rule): six ids in each of four fan-out buckets"""
+    import hashlib
+    ids, count, i = [], {}, 0
+    while len(ids) < NOBJ:
+        data = (b"object-%d\n" % i) * (1 + i % 5)
+        h = hashlib.sha1(b"blob %d\0" % len(data) + data).digest()
+        i += 1
+        if h[0] not in BUCKETS or count.get(h[0], 0) >= NOBJ // len(BUCKETS):
+            continue
+        count[h[0]] = count.get(h[0], 0) + 1
+        ids.append(h)
+    return ids
+
+
+IDS = _universe()
+
+
+def prefix_of(k, n, miss):
+    p = bytearray(IDS[k][:n])
+    if miss:
+        p[n - 1] = (p[n - 1] - 1) % 256
+    return bytes(p)
+
+
+def miss_ok(k, n):
+    """the near-miss prefix of (k, n) is carried by no id of the universe"""
+    p = prefix_of(k, n, True)
+    return not any(h.startswith(p) for h in IDS)
+
+
+def iter_shape(mask, prefix):
+    """what LazyIndex.EntriesWithPrefix(prefix) does on the pack holding the objects of mask:
+    (acquires a reference?, matching entries, what follows them)"""
+    ids = sorted(IDS[k] for k in range(NOBJ) if mask >> k & 1)
+    bucket = [h for h in ids if h[0] == prefix[0]]
+    if not bucket:
+        return False, 0, "TEnd"
+    target = prefix + b"\0" * (20 - len(prefix))
+    rest = [h for h in bucket if h >= target]
+    if not rest:
+        return True, 0, "TBeyond"
+    m = 0
+    while m < len(rest) and rest[m].startswith(prefix):
+        m += 1
+    return True, m, ("TMismatch" if m < len(rest) else "TEnd")
 
 
 def rmask(rng, p):
@@ -45,6 +94,9 @@ def thread_coq(t):
     k = t["kind"]
     if k == "lookup":
         return "lookup %d%%N" % t["k"]
+    if k == "prefix":
+        # same visibility rule as a lookup (snapshot of the index + loose listing); a near-miss prefix = an object nobody stores
+        return "lookup %d%%N" % (63 if t["miss"] else t["k"])
     if k == "reindex":
         return "TReFlight"
     if k == "notify":
@@ -66,32 +118,46 @@ class Main(Suite):
     def gen(self, rng, n, tier):
         cases = []
         for i in range(n):
-            loose = rmask(rng, 0.2)
-            packs = sorted(set(m for m in (rmask(rng, 0.3) for _ in range(rng.randrange(0, 4))) if m))
+            # two repository shapes: the general one, and 4-6 packs read through the LAZY index under a pool of
+            # capacity 1..3 by prefix resolvers (2..4-byte prefixes, existing and near-miss) next to object readers
+            multi = rng.random() < 0.5
+            if multi:
+                loose = rmask(rng, 0.1)
+                packs = sorted(set(m for m in (rmask(rng, 0.35) for _ in range(rng.randrange(4, 7))) if m))
+            else:
+                loose = rmask(rng, 0.2)
+                packs = sorted(set(m for m in (rmask(rng, 0.3) for _ in range(rng.randrange(0, 4))) if m))
             init = loose
             for p in packs:
                 init |= p
+            present = [k for k in range(NOBJ) if init >> k & 1]
             threads = []
-            repack = rng.random() < 0.12          # a few scenarios: another process repacks (outside the model)
-            for _ in range(rng.randrange(3, 10)):
-                kind = pick_weighted(rng, [(6, "lookup"), (1, "reindex"), (1, "notify"), (1, "extpack"), (1, "extloose")])
+            repack = (not multi) and rng.random() < 0.12   # a few scenarios: another process repacks (outside the model)
+            for _ in range(rng.randrange(4, 11) if multi else rng.randrange(3, 10)):
+                kind = pick_weighted(rng, [(4, "lookup"), (5 if multi else 2, "prefix"), (1, "reindex"), (1, "notify"), (1, "extpack"), (1, "extloose")])
                 if kind == "extpack" and repack and not any(t["kind"] == "extrepack" for t in threads):
                     kind = "extrepack"
+                k = rng.choice(present) if present and rng.random() < 0.7 else rng.randrange(NOBJ)
                 if kind == "lookup":
-                    present = [k for k in range(NOBJ) if init >> k & 1]
-                    k = rng.choice(present) if present and rng.random() < 0.6 else rng.randrange(NOBJ)
                     threads.append({"kind": "lookup", "k": k, "op": rng.choice(["get", "has", "size"])})
+                elif kind == "prefix":
+                    nb = rng.choice([2, 2, 3, 4])
+                    miss = rng.random() < 0.45 and miss_ok(k, nb)
+                    threads.append({"kind": "prefix", "k": k, "n": nb, "miss": miss, "op": "prefix"})
                 elif kind in ("reindex", "extrepack"):
                     threads.append({"kind": kind})
                 elif kind in ("notify", "extpack"):
-                    threads.append({"kind": kind, "p": rmask(rng, 0.3) or 1})
+                    threads.append({"kind": kind, "p": rmask(rng, 0.2) or 1})
                 else:
                     threads.append({"kind": "extloose", "k": rng.randrange(NOBJ)})
             sched = [rng.randrange(len(threads)) for _ in range(rng.randrange(0, 40))]
-            cases.append({"bucket": "scenario", "loose": loose, "packs": packs, "threads": threads, "sched": sched,
-                          "bg": rng.choice([0, 1, 2, 4]), "jitter": rng.randrange(1 << 30),
-                          "opts": {"pool": rng.choice([-1, 0, 1, 1, 2]), "memidx": rng.random() < 0.4,
-                                   "lot": rng.choice([0, 0, 16]), "cache": rng.choice(["", "tiny"])}})
+            if multi:
+                opts = {"pool": rng.choice([1, 2, 3]), "memidx": False, "lot": rng.choice([0, 0, 16]), "cache": rng.choice(["", "tiny"])}
+            else:
+                opts = {"pool": rng.choice([-1, 0, 1, 1, 2]), "memidx": rng.random() < 0.4, "lot": rng.choice([0, 0, 16]), "cache": rng.choice(["", "tiny"])}
+            cases.append({"bucket": "multipack-prefix" if multi else "scenario", "loose": loose, "packs": packs, "threads": threads, "sched": sched,
+                          "bg": rng.choice([1, 2, 4]) if multi else rng.choice([0, 1, 2, 4]), "jitter": rng.randrange(1 << 30),
+                          "norefs": any(t["kind"] == "extrepack" for t in threads), "opts": opts})
         return cases
 
     def model_expr(self, c):
@@ -103,7 +169,7 @@ class Main(Suite):
 
     def nontrivial(self, c):
         ks = [t["kind"] for t in c["threads"]]
-        return ks.count("lookup") >= 2 and any(k != "lookup" for k in ks)
+        return ks.count("lookup") + ks.count("prefix") >= 2 and any(k not in ("lookup", "prefix") for k in ks)
 
     def oracle(self, ctx, cases, impl, model):
         """on the implementation alone: an object of the initial repository is found, an object nobody ever
@@ -128,12 +194,16 @@ class Main(Suite):
                     final |= t["p"]
                 elif t["kind"] == "extloose":
                     final |= 1 << t["k"]
-            looks = [t for t in c["threads"] if t["kind"] == "lookup"]
+            looks = [t for t in c["threads"] if t["kind"] in ("lookup", "prefix")]
             if len(outs) != 1 + len(looks):
                 fails[c["id"]] = "reply has %d answers for %d lookups" % (len(outs) - 1, len(looks))
                 continue
             for t, o in zip(looks, outs[1:]):
                 k = t["k"]
+                if t["kind"] == "prefix" and t["miss"]:
+                    if o != "false":
+                        fails[c["id"]] = "HashesWithPrefix(near-miss prefix of object %d, %d bytes) = %s" % (k, t["n"], o)
+                    continue
                 if init >> k & 1 and o != "true":
                     fails[c["id"]] = "%s of stored object %d = %s while other goroutines read / add packs" % (t["op"], k, o)
                 elif not (final >> k & 1) and o != "false":
@@ -190,4 +260,84 @@ class Main(Suite):
         return None
 
 
-SUITES = [Main()]
+class IterRefs(Suite):
+    """ONE goroutine drives LazyIndex.EntriesWithPrefix on one pack step by step (Next ... until and beyond EOF,
+    Close early / after exhaustion / repeatedly) while the harness holds 0-2 references: after every step the answer
+    and the reference count of the .idx must be the model's (Model/IdxRefs.v)"""
+    name = "iter"
+    go_cmd = "c23"
+    coq_imports = "From GoGit Require Import Model.IdxRefs."
+    quick_n = 150
+    thorough_n = 2500
+
+    def gen(self, rng, n, tier):
+        cases = []
+        while len(cases) < n:
+            packs = sorted(set(m for m in (rmask(rng, rng.choice([0.2, 0.4, 0.7])) for _ in range(rng.randrange(1, 4))) if m))
+            if not packs:
+                continue
+            pi = rng.randrange(len(packs))
+            k = rng.randrange(NOBJ)
+            nb = rng.choice([1, 2, 2, 3, 4, 20])
+            kind = rng.choice(["own", "own", "miss", "miss", "other-bucket", "beyond"])
+            if kind == "own":
+                prefix = prefix_of(k, nb, False)
+            elif kind == "miss":
+                prefix = prefix_of(k, max(nb, 2), True)
+            elif kind == "other-bucket":
+                prefix = bytes([rng.choice([0x00, 0x3c, 0xff, IDS[k][0]])]) + IDS[k][1:nb]
+            else:
+                prefix = bytes([IDS[k][0], 0xff, 0xff])[:max(2, min(nb, 3))]
+            acq, m, tl = iter_shape(packs[pi], prefix)
+            ops = []
+            for _ in range(rng.randrange(0, m + 4)):
+                ops.append("next")
+                if rng.random() < 0.12:
+                    ops.append("close")
+            ops += ["close"] * rng.randrange(0, 3) + ["next"] * rng.randrange(0, 2)
+            cases.append({"bucket": "iter-" + (tl if acq else "empty-bucket"), "mode": "iter", "packs": packs, "pi": pi, "prefix": prefix.hex(),
+                          "pins": rng.choice([0, 1, 1, 2]), "pool": rng.choice([-1, 1, 2, 3]), "ops": ops,
+                          "shape": [acq, m, tl]})
+        return cases
+
+    def model_expr(self, c):
+        acq, m, tl = c["shape"]
+        return "c23_iter_run %d %d %s %s %s" % (c["pins"], m, tl, "true" if acq else "false",
+                                                coq_list(["INext" if o == "next" else "IClose" for o in c["ops"]]))
+
+    def nontrivial(self, c):
+        return c["shape"][0] and len(c["ops"]) >= 2
+
+    def oracle(self, ctx, cases, impl, model):
+        """exact accounting on the implementation alone: whatever was done to the iterator, once it is closed (or its
+        run ended) only the harness pins remain; the count never drops below the pins"""
+        fails = {}
+        for c in cases:
+            r = impl.get(c["id"])
+            if r is None or r.get("panic"):
+                continue
+            try:
+                outs = parse_out(r["out"])
+            except Exception:
+                fails[c["id"]] = "unparsable reply"
+                continue
+            if not isinstance(outs, list) or outs[:1] == ["err"]:
+                fails[c["id"]] = "iterator could not be driven: %s / %s" % (r["out"], r.get("extra"))
+                continue
+            closed = False
+            for i, (o, step) in enumerate(zip(["made"] + c["ops"], outs)):
+                ans, refs = step[0], int(step[1])
+                if ans == "bad":
+                    fails[c["id"]] = "step %d (%s): unexpected answer" % (i, o)
+                    break
+                closed = closed or o == "close"
+                if refs < c["pins"]:
+                    fails[c["id"]] = "step %d (%s): the .idx holds %d references but the harness alone holds %d: a reference was released twice" % (i, o, refs, c["pins"])
+                    break
+                if closed and refs != c["pins"]:
+                    fails[c["id"]] = "step %d (%s): %d references after Close, want %d (the pins): leaked" % (i, o, refs, c["pins"])
+                    break
+        return fails
+
+
+SUITES = [Main(), IterRefs()]
